@@ -41,7 +41,7 @@ OPTLIBS = ["random", "cmaes", "nevergrad", "skopt", "baytune"]
 REQUIRED_MONITORS = (
     ["preset:" + p for p in PRESETS_FAST + PRESETS_OPT]
     + ["method:" + m for m in METHODS]
-    + ["optlib:random", "explicit:linear", "explicit:ssa", "explicit:edge", "explicit:incomplete", "one_tensor", "two_tensor"]
+    + ["optlib:random", "explicit:linear", "explicit:ssa", "explicit:edge", "explicit:incomplete", "explicit_via_path_interface", "one_tensor", "two_tensor"]
 )
 SHARD_TIMEOUT = {"quick": 500, "thorough": 5400}
 CALL_LIMIT = 120
@@ -151,7 +151,34 @@ def do_case(rep, case):
                 return _res("tree", check_tree(net, tree))
             if entry == "explicit":
                 kw = {case["fmt"]: case["path"]}
-                if case.get("via") == "interface" and case["fmt"] in ("path", "edge_path"):
+                if case.get("via") == "interface_path" and case["fmt"] in ("path", "edge_path"):
+                    # the path interface: an explicit path (possibly partial - an edge path cannot join
+                    # disconnected parts) comes back as a LINEAR path whose positions exist at every step
+                    # and which performs exactly the merges the tree interface builds for the same argument
+                    rep.mon("explicit_via_path_interface")
+                    opt = case["path"] if case["fmt"] == "edge_path" else [tuple(st) for st in case["path"]]
+                    if not opt and case["fmt"] == "path":
+                        opt = ()
+                    path = ctg.array_contract_path(net.inputs, net.output, net.size_dict, optimize=opt, canonicalize=False, cache=False)
+                    msg = ref.check_linear_path(net.N, path, allow_incomplete=True)
+                    if msg:
+                        return _res("path", f"array_contract_path(optimize=<explicit {case['fmt']}>) -> {list(map(tuple, path))!r:.200}: {msg}")
+                    have = {frozenset(x) for x in ref.path_to_nodes(net.N, path)}
+                    if case["fmt"] == "edge_path":
+                        t0 = ContractionTree.from_path(net.inputs, net.output, net.size_dict, edge_path=case["path"], autocomplete=False)
+                        want = {frozenset(nd) for nd in t0.children}
+                    else:
+                        want = {frozenset(nd) for nd in case.get("expect_nodes", ()) if len(nd) > 1}
+                    have = {nd for nd in have if len(nd) > 1}
+
+                    def tops(nodes):
+                        return {x for x in nodes if not any(x < y for y in nodes)}
+
+                    # (a step joining 3+ tensors is split into pairwise nodes by the tree builder)
+                    if not have <= want or tops(have) != tops(want):
+                        return _res("path", f"array_contract_path(optimize=<explicit {case['fmt']}>) merges {sorted(map(sorted, have))} but the argument dictates {sorted(map(sorted, want))}")
+                    tree = ContractionTree.from_path(net.inputs, net.output, net.size_dict, path=path, autocomplete=True)
+                elif case.get("via") == "interface" and case["fmt"] in ("path", "edge_path"):
                     tree = ctg.array_contract_tree(net.inputs, net.output, net.size_dict, optimize=case["path"], canonicalize=False)
                 else:
                     tree = ContractionTree.from_path(net.inputs, net.output, net.size_dict, autocomplete=True, **kw)
@@ -272,7 +299,7 @@ def run_shard(rep, tier, seed, shard, nshards):
             net = make_net(rng, 1, 14)
             n = net.N
             which = rng.choice(["linear", "ssa", "edge", "incomplete"])
-            via = rng.choice(["from_path", "interface"])
+            via = rng.choice(["from_path", "interface", "interface_path"])
             if which == "linear":
                 path = random_linear_path(rng, n)
                 case = {"entry": "explicit", "fmt": "path", "path": path, "expect_nodes": [sorted(x) for x in ref.path_to_nodes(n, path)], "via": via}
@@ -292,7 +319,7 @@ def run_shard(rep, tier, seed, shard, nshards):
             else:
                 path = random_linear_path(rng, n, incomplete=True)
                 case = {"entry": "explicit", "fmt": "path", "path": path, "expect_nodes": [sorted(x) for x in ref.path_to_nodes(n, path)], "via": "from_path"}
-            if n == 1 and case["fmt"] != "edge_path" and not case["path"] and case["via"] == "interface":
+            if n == 1 and case["fmt"] != "edge_path" and not case["path"] and case["via"] in ("interface", "interface_path"):
                 case["via"] = "from_path"  # an empty explicit path cannot be recognised as a path by the interface
             case.update(net=net.to_json(), case_seed=cs)
             run_one(rep, case, net)
